@@ -13,7 +13,7 @@ import threading
 from pathlib import Path
 
 VERIF = Path(__file__).resolve().parents[1]
-ALSO = {"C14-7": ["C03"], "C19-9": ["C04"], "C01-3": ["C06"], "C02-3": ["C06"], "C05-1": ["C06"], "C05-3": ["C06"]}
+ALSO = {"C11-10": ["C09"], "C14-7": ["C03"], "C19-9": ["C04"], "C01-3": ["C06"], "C02-3": ["C06"], "C05-1": ["C06"], "C05-3": ["C06"]}
 
 
 def one(sid, slot):
@@ -28,7 +28,12 @@ def one(sid, slot):
         res = {"error": (p.stdout + p.stderr)[-800:]}
     res.pop("seed", None)
     res["verif_head"] = subprocess.run(["git", "-C", str(VERIF), "rev-parse", "--short", "HEAD"], capture_output=True, text=True).stdout.strip()
-    res["caught_by"] = sorted(k for k, v in res.get("checks", {}).items() if v.get("exit") == 1 and v.get("violations", 0) > 0)
+    # the regression corpus (the seed's own demo.py, run first by every check) catches every seed by
+    # construction: `caught_by` only counts violations found by the models, ties and searches
+    res["caught_by"] = sorted(k for k, v in res.get("checks", {}).items() if v.get("exit") == 1
+                              and any(not str(x.get("key", "")).startswith("corpus:") for x in v.get("detail", [])))
+    res["caught_by_corpus"] = sorted(k for k, v in res.get("checks", {}).items() if v.get("exit") == 1
+                                     and any(str(x.get("key", "")).startswith("corpus:") for x in v.get("detail", [])))
     (d / "caught.json").write_text(json.dumps(res, indent=1) + "\n")
     print(sid, "caught by", res["caught_by"], flush=True)
 
